@@ -178,7 +178,9 @@ class MH(ProposalBasedSampler):
 
         # accept/reject
         u_theta = np.log(np.random.rand())
-        if (u_theta <= alpha):
+        if (u_theta <= alpha) and \
+           (not np.isnan(target_eval_star)) and \
+           (not np.isinf(target_eval_star)):
             x_next = x_star
             target_eval_next = target_eval_star
             acc = 1
